@@ -117,6 +117,10 @@ def install():
 #  loop-cutting front end)
 # ----------------------------------------------------------------------------
 
+class MissingCode(LookupError):
+    """A function / loop named by a contract no longer exists in the working tree."""
+
+
 _tree_cache: dict = {}
 
 
@@ -146,7 +150,7 @@ def find_def(modname: str, qualname: str):
                 found = ch
                 break
         if found is None:
-            raise LookupError(f"{modname}:{qualname} not found in working tree")
+            raise MissingCode(f"{modname}:{qualname} not found in working tree")
         node = found
     return node
 
@@ -183,7 +187,7 @@ def lift_nested(module_obj, modname: str, outer: str, inner: str):
             hit = True
             break
     if not hit:
-        raise LookupError(f"{modname}:{outer}.{inner} not found as a top-level nested def")
+        raise MissingCode(f"{modname}:{outer}.{inner} not found as a top-level nested def")
     body.append(ast.Return(value=ast.Name(id=inner, ctx=ast.Load())))
     node.body = body
     node.decorator_list = []
